@@ -393,3 +393,6 @@ def run(run):
     # that the random draws of the families above are unchanged
     import c06_resolve
     c06_resolve.resolve_layer(run, rt, quick)
+    # routing of set_index / sort_values on divisions (SetIndex.v); after everything else for the same reason
+    import setindex_layer
+    setindex_layer.setindex_layer(run, rt, quick)
